@@ -28,9 +28,10 @@ impl Write for SharedOut {
 }
 pub static CURRENT: Mutex<String> = Mutex::new(String::new());
 
+/// milliseconds of a monotonic clock (a wall-clock jump must not look like a hang)
 fn now_ms() -> u64 {
-    use std::time::{SystemTime, UNIX_EPOCH};
-    SystemTime::now().duration_since(UNIX_EPOCH).unwrap().as_millis() as u64
+    static START: std::sync::OnceLock<std::time::Instant> = std::sync::OnceLock::new();
+    START.get_or_init(std::time::Instant::now).elapsed().as_millis() as u64 + 1
 }
 
 pub fn begin_case(desc: &str) {
@@ -106,8 +107,17 @@ fn main() {
             ops::exhaustive(m, shard, nshards, &mut out);
         }
         _ => {
-            let seed: u64 = args.get(2).and_then(|s| s.parse().ok()).unwrap_or(1);
-            let count: usize = args.get(3).and_then(|s| s.parse().ok()).unwrap_or(1000);
+            let parse = |i: usize, what: &str| -> u64 {
+                match args.get(i).map(|s| s.parse::<u64>()) {
+                    Some(Ok(v)) => v,
+                    _ => {
+                        eprintln!("{} must be an unsigned integer", what);
+                        std::process::exit(2);
+                    }
+                }
+            };
+            let seed: u64 = parse(2, "seed");
+            let count: usize = parse(3, "count") as usize;
             let mut rng = gen::Rng::new(seed ^ ops::mode_salt(mode));
             for _ in 0..count {
                 ops::generate(mode, &mut rng, &mut out);
